@@ -862,7 +862,9 @@ class LibMixin:
         if name == 'hash':
             return list(self.bi_hash(vals, {}, st, frame, node))[0][1]
         if name == 'fresh_obj':
-            return Sc(z3.Not(z3.Select(self.ctx.alive0, vals[0].term)), BOOL)
+            # not allocated in the pre-state of the contract being evaluated, allocated now
+            before = st.old.alloc_arr() if st.old is not None else self.ctx.alive0
+            return Sc(z3.And(z3.Not(z3.Select(before, vals[0].term)), z3.Select(st.alloc_arr(), vals[0].term)), BOOL)
         if name == 'allocated':
             return Sc(z3.Select(st.alloc_arr(), vals[0].term), BOOL)
         if name == 'card':
